@@ -112,6 +112,9 @@ def no_premature_return(repo, rep, fi, fw, dw):
 
 
 def run(repo, rep, tier):
+    rep.rule("R-C16-7", "smooth_spec casts a coordinate at most, never the spectra, to a narrower type")
+    from .round7b import narrowing_cast_on_data
+    rep.floor("R-C16-7", "narrowing casts in smooth_spec", narrowing_cast_on_data(repo, rep, "R-C16-7", "wavespectra.core.utils.smooth_spec"), 0)
     from .round7b import hygiene
     hygiene(repo, rep, "C16", ('wavespectra.core.utils',), falsy=True)
     rep.rule("R-C16-6", "(shared with C03) the NaN a centred window leaves at the grid edges is filled from the input on every path")
